@@ -366,7 +366,8 @@ impl<M: Msg> TypeRunner for Spec<M> {
 		self.rejects.len()
 	}
 	fn encoded_len(&self, idx: usize) -> usize {
-		self.gen.values[idx].value.serialized_length()
+		// a panic in the encoder is reported by run_case (oracle no-panic); the cost estimate just needs a number
+		guarded(|| self.gen.values[idx].value.serialized_length()).unwrap_or(1)
 	}
 	fn mutated_indices(&self, cfg: &Cfg) -> Vec<usize> {
 		self.mutated_set(cfg)
